@@ -60,6 +60,8 @@ pub struct GPin {
 pub struct GMacro {
     pub name: String,
     pub size: (Dec, Dec),
+    /// ORIGIN statement of the macro (whole raw units); it does not move the pin / obstruction coordinates
+    pub origin: Option<(Dec, Dec)>,
     pub pins: Vec<GPin>,
     pub obs: Vec<GLayer>,
 }
@@ -82,7 +84,7 @@ impl<'a> Gen<'a> {
     fn coord(&mut self, allow_neg: bool) -> Dec {
         self.site += 1;
         let k = self.site;
-        let alt = self.c.cost(13, "coord");
+        let alt = self.c.cost(14, "coord");
         match alt {
             0 => Dec { mant: 15 + 10 * k, scale: 1 },          // 1.5 + k
             1 => Dec { mant: 2 + k, scale: 0 },                // integer
@@ -107,6 +109,14 @@ impl<'a> Gen<'a> {
                     Dec { mant: -(1 + 10 * k), scale: 5 }
                 } else {
                     Dec { mant: 3 + 10 * k, scale: 5 }
+                }
+            }
+            13 => {
+                // strictly between -1 and 0 (no integer part to carry the sign), a whole number of raw units
+                if allow_neg {
+                    Dec { mant: -(1000 + 7 * k), scale: 4 }
+                } else {
+                    Dec { mant: 1000 + 7 * k, scale: 4 }
                 }
             }
             _ => {
@@ -203,7 +213,12 @@ impl<'a> Gen<'a> {
             }
             obs.push(l);
         }
-        GMacro { name: format!("MAC{idx}"), size, pins, obs }
+        let origin = match self.c.cost(3, "macro-origin") {
+            0 => None,
+            1 => Some((Dec { mant: 5, scale: 1 }, Dec { mant: 125, scale: 2 })),
+            _ => Some((Dec { mant: -2, scale: 0 }, Dec { mant: 0, scale: 0 })),
+        };
+        GMacro { name: format!("MAC{idx}"), size, origin, pins, obs }
     }
 }
 
@@ -230,6 +245,7 @@ pub fn to_lef(case: &Case) -> LefLibrary {
     for m in &case.macros {
         let mut lm = LefMacro::new(m.name.clone());
         lm.size = Some((m.size.0.lef(), m.size.1.lef()));
+        lm.origin = m.origin.as_ref().map(|(x, y)| LefPoint::new(x.lef(), y.lef()));
         for p in &m.pins {
             let mut lp = LefPin::default();
             lp.name = p.name.clone();
@@ -343,7 +359,7 @@ impl CaseDriver for C16 {
     fn describe(&self, tier: Tier) -> Describe {
         Describe {
             rule: format!(
-                "LefLibrary values built directly: 1-2 macros with SIZE, 0-2 pins x 1-2 ports x 1-2 layer geometries, 0-2 obstruction layers (second optionally on the same layer => merged), 1-2 geometries per layer of kind RECT / POLYGON (3-5 points) / PATH (2-3 points, layer WIDTH), the second one optionally the first one stated again (digit for digit, or with one more trailing zero on every number: still two shapes), layer names from {{m1, M1, via, boundary, e-acute}}; polygons optionally closed explicitly and paths optionally returning to their first point; UNITS DATABASE MICRONS absent / 1000 / 100 / 2000 / 10000 / 20000 (raw units stay 1e-4 um: the import declares Angstrom); every coordinate site takes one of 13 decimals Decimal::new(mantissa, scale) built from the site counter (so all sites differ: x != y everywhere): scale 0,1,2,4,5,6, negative, trailing zeros, zero spelled 0 and 0.000, and four values (two positive, two negative) that are not a whole number of 1e-4 um. Free: kind of the first shape and second macro; all other choices cost one deviation; all choice sequences with <= {} deviations. A state is one library value; non-trivial = at least one deviation. Oracle: value*10^4 computed on the decimal digits.",
+                "LefLibrary values built directly: 1-2 macros with SIZE, 0-2 pins x 1-2 ports x 1-2 layer geometries, 0-2 obstruction layers (second optionally on the same layer => merged), 1-2 geometries per layer of kind RECT / POLYGON (3-5 points) / PATH (2-3 points, layer WIDTH), the second one optionally the first one stated again (digit for digit, or with one more trailing zero on every number: still two shapes), layer names from {{m1, M1, via, boundary, e-acute}}; polygons optionally closed explicitly and paths optionally returning to their first point; UNITS DATABASE MICRONS absent / 1000 / 100 / 2000 / 10000 / 20000 (raw units stay 1e-4 um: the import declares Angstrom); the macro optionally has an ORIGIN statement ((0.5, 1.25) / (-2, 0)), which must not move any coordinate; every coordinate site takes one of 14 decimals Decimal::new(mantissa, scale) built from the site counter (so all sites differ: x != y everywhere): scale 0,1,2,4,5,6, negative, negative between -1 and 0, trailing zeros, zero spelled 0 and 0.000, and four values (two positive, two negative) that are not a whole number of 1e-4 um. Free: kind of the first shape and second macro; all other choices cost one deviation; all choice sequences with <= {} deviations. A state is one library value; non-trivial = at least one deviation. Oracle: value*10^4 computed on the decimal digits.",
                 self.bound(tier)
             ),
             assumptions: vec!["WIDTH is only generated on layers that hold a PATH (an unused non-representable WIDTH is not a coordinate of any shape)".into()],
